@@ -55,7 +55,7 @@ def concrete(tag: str, v: int = 0, palette: int = 0):
     if tag == "complex":
         return complex(v, 1 + palette)
     if tag == "str":
-        return ["k%02d" % v if v >= 0 else "j%02d" % (99 + v), "é%03d" % (v + 500), "s%d " % (v + 10)][palette % 3]
+        return ["k%02d" % v if v >= 0 else "j%02d" % (99 + v), "é%03d" % (v + 500), "s%03d " % (v + 10)][palette % 3]
     if tag == "bytes":
         return b"b%02d" % (v + 50)
     if tag == "date":
